@@ -72,43 +72,57 @@ func Equal(a, b interface{}) bool {
 	return false
 }
 
-// PlainDecimal reports whether s is numeric text in plain decimal form
-// (-?digits[.digits]), the only text the reference treats as a number.
+// PlainDecimal reports whether s is a numeral in decimal notation: an optional sign, digits
+// with an optional decimal point (at least one digit: "5", "5.", ".5", "0.5"), an optional
+// exponent ("1e3", "2.5E-1"). This is the text the reference treats as a number: every
+// common reading of "numeric text" (JSON, Go, C, Python, JavaScript number syntax) accepts
+// these or a subset of them, and the engine reads text with strconv.ParseFloat, which
+// accepts them all. Hex floats, digit separators, "inf"/"nan" and padded text stay open.
 func PlainDecimal(s string) bool {
-	if s == "" {
+	i := 0
+	if i < len(s) && (s[i] == '-' || s[i] == '+') {
+		i++
+	}
+	digits := 0
+	for i < len(s) && s[i] >= '0' && s[i] <= '9' {
+		i++
+		digits++
+	}
+	if i < len(s) && s[i] == '.' {
+		i++
+		for i < len(s) && s[i] >= '0' && s[i] <= '9' {
+			i++
+			digits++
+		}
+	}
+	if digits == 0 {
 		return false
 	}
-	i := 0
-	if s[0] == '-' {
-		i = 1
-	}
-	digits, dot, after := 0, false, 0
-	for ; i < len(s); i++ {
-		c := s[i]
-		switch {
-		case c >= '0' && c <= '9':
-			if dot {
-				after++
-			} else {
-				digits++
-			}
-		case c == '.' && !dot:
-			dot = true
-		default:
+	if i < len(s) && (s[i] == 'e' || s[i] == 'E') {
+		i++
+		if i < len(s) && (s[i] == '-' || s[i] == '+') {
+			i++
+		}
+		exp := 0
+		for i < len(s) && s[i] >= '0' && s[i] <= '9' {
+			i++
+			exp++
+		}
+		if exp == 0 {
 			return false
 		}
 	}
-	return digits > 0 && (!dot || after > 0)
+	return i == len(s)
 }
 
-// ExoticNumeric reports text that strconv.ParseFloat accepts but that is not plain
-// decimal ("inf", "nan", "1e3", "0x1p3", "1_0", "+1", ".5", "1."): whether it is
-// "numeric text" is not documented, so ordering cells involving it are not judged.
+// ExoticNumeric reports text that strconv.ParseFloat accepts but that is not a decimal
+// numeral ("inf", "nan", "0x1p3", "0x_1p0"), or a decimal numeral too large for a float64:
+// whether it is "numeric text" is not documented, so ordering cells involving it are not judged.
 func ExoticNumeric(s string) bool {
+	f, err := strconv.ParseFloat(s, 64)
 	if PlainDecimal(s) {
-		return false
+		return err != nil || math.IsInf(f, 0) // "1e999": out of range
 	}
-	_, err := strconv.ParseFloat(s, 64)
 	return err == nil
 }
 
